@@ -1,4 +1,4 @@
-package zzvh
+package cmd
 
 // sx prelude. The symbolic executor intercepts every sx* function by name and
 // never runs these bodies; natively they read a replay table (SX_REPLAY), so
